@@ -50,6 +50,7 @@ class Prog:
             self.counts[crate] = d["counts"]
             for f in d["fns"]:
                 fn = Fn(f, crate)
+                fn.prog = self
                 self.fn_list.append(fn)
                 self.fns.setdefault(fn.path, []).append(fn)
             for c in d["consts"]:
